@@ -128,7 +128,7 @@ def postprocess_attributes(
             names = tuple(f"{names}{idx}" for idx in range(exponents.shape[1]))
         else:
             names = (names,)
-    if names:
+    if names is not None:
         if len(names) != exponents.shape[1]:
             raise PolynomialConstructionError(
                 "Name length incompatible exponent length; "
